@@ -119,7 +119,13 @@ def _tagcount(acc, prog):
 def gen_prog(rng, prop, hostile_ok=True):
     prof = dict(PROFILES[prop])
     if hostile_ok and rng.random() < HOSTILE_SHARE:
-        prof['hostile'] = rng.choice(HOSTILE_FAMILIES + (['dup_param'] if prop == 'C03' else []))
+        fam = rng.choice(HOSTILE_FAMILIES + (['dup_param'] if prop == 'C03' else [])
+                         + (['rec_inner', 'rec_inner'] if prop in ('C01', 'C03', 'C09', 'C10', 'C11') else []))
+        if fam == 'rec_inner':
+            prof['rec_inner'] = True
+            prof['p_rec'] = max(prof['p_rec'], 0.35)
+        else:
+            prof['hostile'] = fam
     return gen.gen_program(rng, prof)
 
 
